@@ -1,6 +1,7 @@
 import Pandora.Drv.Util
 import Pandora.Model.C19
 import Pandora.Spec.C19
+import Pandora.Drv.C19Vars
 
 /-!
 C19 model driver: for one input line of harness/cmd/c19 computes the model's prediction of the observation and the
@@ -81,7 +82,12 @@ def bodyOfClass (c : String) : Option Body :=
   | "html" => some (.lit htmlBody.toList)
   | "badhtml" => some (.lit badHtmlBody.toList)
   | "empty" => some (.lit [])
-  | _ => (natAfter "x" c).map .filler
+  | _ =>
+    -- the list bodies of round 3 (harness: vars.go)
+    match natAfter "jl" c, natAfter "hl" c with
+    | some n, _ => some (.lit (jsonListBody n).toList)
+    | none, some n => some (.lit (htmlListBody n).toList)
+    | none, none => (natAfter "x" c).map .filler
 
 def Body.len : Body → Nat
   | .lit s => s.length
@@ -92,8 +98,8 @@ def Body.has (b : Body) (pat : String) : Bool :=
   | .lit s => isInfix pat.toList s
   | .filler n => pat.toList.all (· == 'x') && pat.length ≤ n
 
-/-- `jsonpath.Get` on the fixed JSON body, by path id -/
-def jsonGetById (id : String) : Bool := id != "missing"
+/-- `jsonpath.Get` on the fixed JSON body, by path id (direct calls) -/
+def jsonGetById (id : String) : Bool := (jsonValOf "json" id).isSome
 
 def trimWS (cs : List Char) : List Char :=
   let f := fun (l : List Char) => l.dropWhile fun c => c == ' ' || c == '\t'
@@ -104,6 +110,8 @@ structure ScriptInfo where
   headers : List (String × List Char) := []
   body : Body := .lit []
   jsonClass : Bool := false
+  /-- the body class of the script (`json`, `jl3`, `hl0`, `x7`, …) -/
+  cls : String := "empty"
 
 def parseScript (s : String) : ScriptInfo :=
   (s.splitOn ".").foldl (init := {}) fun acc f =>
@@ -118,20 +126,20 @@ def parseScript (s : String) : ScriptInfo :=
       | _ => acc
     else if f.startsWith "b" then
       let c := String.ofList (f.toList.drop 1)
-      { acc with body := (bodyOfClass c).getD (.lit []), jsonClass := c == "json" }
+      { acc with body := (bodyOfClass c).getD (.lit []), jsonClass := isJsonClass c, cls := c }
     else acc
 
 /-- the scripted targets send no body with 1xx / 204 / 304 (whatever body class the script names) -/
 def statusHasNoBody (status : Nat) : Bool := status / 100 == 1 || status == 204 || status == 304
 
 def respOf (status : Nat) (si0 : ScriptInfo) : Resp :=
-  let si : ScriptInfo := if statusHasNoBody status then { si0 with body := .lit [], jsonClass := false } else si0
+  let si : ScriptInfo := if statusHasNoBody status then { si0 with body := .lit [], jsonClass := false, cls := "empty" } else si0
   { status := status
     header := fun name => ((si.headers.find? (·.1 == name)).map (·.2)).getD []
     bodyLen := si.body.len
     bodyHas := si.body.has
     jsonOk := si.jsonClass
-    jsonGet := jsonGetById }
+    jsonGet := fun id => (jsonValOf si.cls id).isSome }
 
 /-- `u`: the library decides what a client sees of this script; the model predicts nothing for the run -/
 def truthUnknown (truth : String) : Bool := truth == "u"
@@ -203,7 +211,7 @@ def xkindOf (s : String) : Option XKind :=
   | _ => none
 
 def exprKind (id : String) : Option XKind :=
-  if ["divdata", "href", "title", "deep", "none"].contains id then some .nodeSet
+  if ["divdata", "href", "title", "deep", "none", "lis"].contains id then some .nodeSet
   else if ["count", "string", "arith", "bool"].contains id then some .scalar
   else if ["bad", "bad2"].contains id then some .invalid
   else none
@@ -219,7 +227,7 @@ def handleJsonpath (kv : List (String × String)) (impl : String) : String × St
   if body.startsWith "raw:" then ("-", v)
   else
     let r : Resp := { status := 200, header := fun _ => [], bodyLen := 0, bodyHas := fun _ => false,
-                      jsonOk := body == "json", jsonGet := jsonGetById }
+                      jsonOk := isJsonClass body, jsonGet := fun id => (jsonValOf body id).isSome }
     (postStr (varJsonpath [getS kv "path"] r), v)
 
 /-! engine runs -/
@@ -229,6 +237,12 @@ def parsePP (tok : String) : Option (Option PP) :=     -- `some none` = "tpl" ma
   | ["-"] => some none
   | ["tpl"] => some none
   | ["U"] => some none
+  | ["TH"] => some none
+  | "UH" :: _ => some none
+  | "UB" :: _ => some none
+  | "P" :: _ => some none
+  | "F" :: _ => some none
+  | "T" :: _ => some none
   | ["H", hdr] => some (some (.varHeader [{ header := hdr, mods := some [] }]))
   | ["H", hdr, mods] => (parseMods mods).map fun ms => some (.varHeader [{ header := hdr, mods := ms }])
   | ["A", st, pat, hdr, size] => do
@@ -321,6 +335,42 @@ def parsePlan (h2gun : Bool) (s : String) : Option ConnPlan := do
   let dflt ← fates.getLast?
   pure { fates := fates, dflt := dflt, racy := toks.any connRacy }
 
+/-- what the postprocessors of a step store as the variable `v` (harness: every mapping is `v = …`; a later
+postprocessor overwrites an earlier one) when the step's response is the complete one of `script` -/
+def postVarsOf (truth script : String) (toks : List String) : Fields :=
+  match natAfter "rbx" truth, natAfter "rb" truth, natAfter "r" truth with
+  | none, none, some st =>
+    let si0 := parseScript script
+    let si : ScriptInfo := if statusHasNoBody st then { si0 with body := .lit [], jsonClass := false, cls := "empty" } else si0
+    let hdr (name : String) : List Char := ((si.headers.find? (·.1 == name)).map (·.2)).getD []
+    let v : Option Val := toks.foldl (init := none) fun acc tok =>
+      match tok.splitOn "~" with
+      | ["H", h] => if (hdr h).isEmpty then acc else some (.str (String.ofList (hdr h)))
+      | ["H", h, mods] =>
+        match parseMods mods with
+        | some (some ms) =>
+          if (hdr h).isEmpty then acc
+          else match applyChain ms (hdr h) with
+            | .ok r => some (.str (String.ofList r))
+            | .panic _ => acc
+        | _ => acc
+      | ["J", id] => (jsonValOf si.cls id).orElse fun _ => acc
+      | ["X", id] => ((xpathValsOf si.cls id).map xpathStored).orElse fun _ => acc
+      | _ => acc
+    match v with
+    | some x => [("v", x)]
+    | none => []
+  | _, _, _ => []
+
+/-- a step stores a variable whose value the driver does not tabulate (an xpath on a broken document), or a header
+value with bytes outside ASCII -/
+def varsUnknown (script : String) (toks : List String) : Bool :=
+  let si := parseScript script
+  toks.any fun tok =>
+    match tok.splitOn "~" with
+    | ["X", id] => (exprKind id) == some .nodeSet && (xpathValsOf si.cls id).isNone
+    | _ => false
+
 def handleRun (kv : List (String × String)) (impl : String) : String × String :=
   let (res, n) := implRes impl
   let noCfg : AutoTagCfg := { enabled := false, uriElements := 2, noTagOnly := true }
@@ -385,33 +435,47 @@ def handleRun (kv : List (String × String)) (impl : String) : String × String 
       | [name, script, truth, pps] => do
         let toks := splitList pps "+"
         let ps ← toks.mapM parsePP
+        let pre ← toks.mapM parsePreTok
         let cfg : StepCfg := { name := name, prepFails := toks.contains "tpl", pps := ps.filterMap id }
         let reply := if noConn then Reply.noResponse .other else replyOf truth script
-        pure (cfg, reply)
+        pure ({ cfg := cfg, pre := pre.filterMap id, facts := facts, reply := reply, post := postVarsOf truth script toks } : VStep)
       | _ => none
     match parsed, (if tgt == "tlsplan" then (parsePlan h2 (getS kv "plan")).map some else some none) with
     | none, _ => ("-", "fail:driver:unparsable steps")
     | _, none => ("-", "fail:driver:unparsable plan")
-    | some steps, some plan? =>
+    | some vsteps, some plan? =>
       let shotsN := (getN? kv "n").getD 1
       let inst := (getN? kv "inst").getD 1
+      let steps : List (StepCfg × Reply) := vsteps.map fun v => (v.cfg, v.reply)
+      -- the variable mechanism (preprocessors reading what earlier responses stored) resolved into `prepFails`
+      let resolved := resolveV (some maxRandStringLength) h2 {} vsteps
       let shots : List GunShot := match plan? with
-        | none => List.replicate shotsN (GunShot.scenario h2 "scn" (steps.map fun (c, r) => (c, facts, r)))
+        | none => List.replicate shotsN (GunShot.scenario h2 "scn" resolved)
         | some plan => scenarioShotsOverConns (getS kv "dka" == "1") plan.dflt h2 "scn" steps shotsN false plan.fates
       let run := instanceRun (shots.map GunShot.run)
       let certain := match plan? with | none => true | some plan => inst == 1 && !plan.racy
       let fatal := match plan? with
         | some plan => if certain then shots.any GunShot.documentedFatal else h2 && plan.fates.any ConnFate.fatal
         | none => shots.any GunShot.documentedFatal
-      let v := Spec.C19.judgeRun fatal shotsN shotsN (shotsN * steps.length) res n
-      -- not predicted: a step whose request is built from a variable of an earlier RESPONSE (the rendered request may
-      -- or may not be sendable), a script whose fate the library decides
+      let v0 := Spec.C19.judgeRun fatal shotsN shotsN (shotsN * steps.length) res n
+      -- the open finding of round 3 (fixes/C19-randstring-cap.diff): a response-derived length handed to randString
+      -- beyond what `make([]rune, n)` accepts; reported under its own key, not compared with the (repaired) model
+      let makeslice := res.startsWith "panic:other:runtime_error:_makeslice"
+      let v := if makeslice then "fail:makeslice:a response-derived length handed to randString aborted the run (" ++ res ++ ")" else v0
+      -- not predicted: a step whose request is built from a variable of an earlier RESPONSE by a TEMPLATE (the rendered
+      -- request may or may not be sendable; text/template decides what `index` does), a script whose fate the library decides
       let stepToks := (splitList (getS kv "steps") ";").map fun st => st.splitOn ","
+      let hasVarTok := stepToks.any fun f =>
+        match f with
+        | [_, _, _, pps] => (splitList pps "+").any fun t => t.startsWith "P~" || t.startsWith "F~"
+        | _ => false
       let unknown := !noConn && stepToks.any fun f =>
         match f with
-        | [_, _, truth, pps] => truthUnknown truth || (splitList pps "+").contains "U"
+        | [_, script, truth, pps] =>
+          truthUnknown truth || (script.splitOn ".").any (·.startsWith "bjs") || (splitList pps "+").any (fun t => t == "U" || t.startsWith "T~" || t.startsWith "UH~" || t.startsWith "UB~") ||
+            (hasVarTok && varsUnknown script (splitList pps "+"))
         | _ => false
-      if unknown || !certain || (fatal && inst > 1) then ("-", v) else (fmtRun run "panic:not-http2", v)
+      if unknown || !certain || (fatal && inst > 1) || makeslice then ("-", v) else (fmtRun run "panic:not-http2", v)
   | "grpc" =>
     let parsed := (splitList (getS kv "reqs") ",").mapM fun r =>
       match r.splitOn ":" with
@@ -475,6 +539,7 @@ def handle : Handler := fun input impl =>
   | "assert" => handleAssert kv impl
   | "gassert" => handleGAssert kv impl
   | "xpath" => handleXpath kv impl
+  | "idx" => handleIdx kv impl
   | "jsonpath" => handleJsonpath kv impl
   | "run" => if impl.startsWith "PANIC" then ("-", s!"fail:panic:{impl.take 160}") else handleRun kv impl
   | _ => ("-", "fail:driver:unknown case kind")
